@@ -153,6 +153,10 @@ class StmtMixin:
                 raise Unsupported('bare raise outside handler')
             raise TargetExc(cur)
         e = self.eval(node.exc, fr)
+        if isinstance(e, SOpt):
+            if self.choose(e.isnone):
+                raise TargetExc(self.make_exception(TypeError, ['exceptions must derive from BaseException'], {}))
+            e = e.val
         if isinstance(e, type) and issubclass(e, BaseException):
             e = self.make_exception(e, [], {})
         if not (isinstance(e, Obj) and isinstance(e.cls, type)
